@@ -146,6 +146,17 @@ def run(ctx):
                hc.guarded(b, lambda fc: fc[0] == "truth" and A.peel(fc[1]) == ("param", 5) and fc[2] is True)[0]]
         ctx.check(all(oks), "C02.2", "helper:delegation-guards", "Delegation iff may_delegate && qtype != NS && non-empty NS set",
                   "Delegation guards missing (NS-present, non-empty, qtype != NS, may_delegate) = %s" % oks, h.loc(b, i))
+    # ... and conversely: an Answer is built only where no CNAME applies - behind `CNAME.matches(qtype)`, a missing CNAME
+    # set or an empty one (no further condition lets a question slip past an alias the name has)
+    cname_absent = lambda fc: (fc[0] == "is" and fc[1] == "None" and A.peel(fc[2])[0] == "call" and A.peel(fc[2])[1].endswith("HashMap::<K, V, S, A>::get")
+                               and A.path_str(A.peel(fc[2])[2][0]) == "param3" and A.peel(A.peel(fc[2])[2][1])[0] == "agg" and A.peel(A.peel(fc[2])[2][1])[2] == "CNAME")
+    cname_empty = lambda fc: fc[0] == "call" and (fc[1].endswith("Vec::<T, A>::is_empty") or fc[1].endswith("<impl [T]>::is_empty")) and fc[3] is True \
+        and any(x[0] == "call" and x[1].endswith("HashMap::<K, V, S, A>::get") and A.peel(x[2][1])[0] == "agg" and A.peel(x[2][1])[2] == "CNAME" for x in A.walk(fc[2][0]))
+    cname_asked = lambda fc: fc[0] == "call" and fc[1] == T + "RecordType::matches" and fc[3] is True and A.peel(fc[2][0])[2] == "CNAME" and A.peel(fc[2][1]) == ("param", 2)
+    for n_, (fn_, _k, b, i, _x, e_) in enumerate([r_ for r_ in results if r_[0] is h and r_[5][2] == "Answer"]):
+        okc, _ = hc.guarded(b, lambda fc: cname_absent(fc) or cname_empty(fc) or cname_asked(fc))
+        ctx.check(okc, "C02.2", "helper:answer-only-without-cname#%d" % n_, "an Answer only if CNAME / ANY was asked or the name has no CNAME",
+                  "an Answer can be returned for a name that has a CNAME although neither CNAME nor ANY was asked", h.loc(b, i))
     for b, i in cname:
         oks = [hc.guarded(b, get_of("CNAME"))[0], hc.guarded(b, nonempty)[0],
                hc.guarded(b, lambda fc: fc[0] == "call" and fc[1] == T + "RecordType::matches" and fc[3] is False and A.peel(fc[2][0])[2] == "CNAME" and A.peel(fc[2][1]) == ("param", 2))[0]]
